@@ -149,27 +149,46 @@ func mapsHaveSameStructure(originalMap, compactedMap map[string]interface{}) boo
 	}
 
 	for k, v1 := range original {
-		v1Map, isMap := v1.(map[string]interface{})
-		if !isMap {
-			continue
-		}
-
 		v2, present := compacted[k]
 		if !present { // special case - the name of the map was mapped, cannot guess what's a new name
 			continue
 		}
 
-		v2Map, isMap := v2.(map[string]interface{})
-		if !isMap {
-			return false
-		}
-
-		if !mapsHaveSameStructure(v1Map, v2Map) {
+		if !valuesHaveSameStructure(v1, v2) {
 			return false
 		}
 	}
 
 	return true
+}
+
+// valuesHaveSameStructure descends into objects AND into arrays (an undefined property inside an array of two or more
+// objects is dropped by compaction just like anywhere else).
+func valuesHaveSameStructure(v1, v2 interface{}) bool {
+	switch t1 := v1.(type) {
+	case map[string]interface{}:
+		t2, isMap := v2.(map[string]interface{})
+		if !isMap {
+			return false
+		}
+
+		return mapsHaveSameStructure(t1, t2)
+	case []interface{}:
+		t2, isSlice := v2.([]interface{})
+		if !isSlice || len(t1) != len(t2) {
+			return false
+		}
+
+		for i := range t1 {
+			if !valuesHaveSameStructure(t1[i], t2[i]) {
+				return false
+			}
+		}
+
+		return true
+	default:
+		return true
+	}
 }
 
 func compactMap(m map[string]interface{}) map[string]interface{} {
